@@ -50,7 +50,13 @@ def line_col(src, i):
 
 
 def check_linecol(acc, src, soup, case, size):
-    for i in range(len(src)):
+    n = len(src)
+    # every offset ascending, then descending, then ascending again, then jumping between the ends:
+    # the answer must not depend on what was asked before
+    order = list(range(n)) + list(range(n - 1, -1, -1)) + list(range(n))
+    for k in range(n // 2):
+        order += [n - 1 - k, k]
+    for i in order:
         try:
             got = soup.char_pos_to_line(i)
         except Exception as e:
